@@ -282,7 +282,7 @@ pub fn eval_pattern_text(cfg: &Cfg, ast: &Node, pat: Vec<u32>, flags: Flags, hay
     }
 
     // per-property extra programs
-    let re_noopt = if cfg.prop == Prop::C03 || cfg.prop == Prop::C05 {
+    let re_noopt = if cfg.prop == Prop::C03 || cfg.prop == Prop::C05 || cfg.prop == Prop::C13 {
         match subject::compile(&pat, flags, true) {
             CompileOutcome::Ok(r) => Some(r),
             other => {
@@ -549,10 +549,18 @@ pub fn eval_pattern_text(cfg: &Cfg, ast: &Node, pat: Vec<u32>, flags: Flags, hay
                     if !hay.is_ascii() {
                         continue;
                     }
-                    for (mu, ma) in [(subject::BT, subject::BT_ASCII), (subject::PIKE, subject::PIKE_ASCII)] {
-                        let a = subject::find_n(&re, ma, &hay.text, bs, 64, cfg.fuel);
+                    for (mu, ma, no_opt) in [(subject::BT, subject::BT_ASCII, false), (subject::PIKE, subject::PIKE_ASCII, false), (subject::BT, subject::BT_ASCII, true), (subject::PIKE, subject::PIKE_ASCII, true)] {
+                        let re: &regress::Regex = if no_opt {
+                            match &re_noopt {
+                                Some(r) => r,
+                                None => continue,
+                            }
+                        } else {
+                            &re
+                        };
+                        let a = subject::find_n(re, ma, &hay.text, bs, 64, cfg.fuel);
                         st.add("transitions", subject::steps());
-                        let b = subject::find_n(&re, mu, &hay.text, bs, 64, cfg.fuel);
+                        let b = subject::find_n(re, mu, &hay.text, bs, 64, cfg.fuel);
                         st.add("transitions", subject::steps());
                         match (&a, &b) {
                             (Outcome::Ok(x), Outcome::Ok(y)) => {
@@ -561,7 +569,7 @@ pub fn eval_pattern_text(cfg: &Cfg, ast: &Node, pat: Vec<u32>, flags: Flags, hay
                                     st.add("nontrivial", 1);
                                 }
                                 if x != y {
-                                    vio!(if ma.backend == subject::Backend::Pike { "ascii and utf-8 entry points differ (PikeVM)" } else { "ascii and utf-8 entry points differ" }, hay, bs, seq_json(y), seq_json(x));
+                                    vio!(match (ma.backend == subject::Backend::Pike, no_opt) { (true, false) => "ascii and utf-8 entry points differ (PikeVM)", (false, false) => "ascii and utf-8 entry points differ", (true, true) => "ascii and utf-8 entry points differ (PikeVM, no_opt)", (false, true) => "ascii and utf-8 entry points differ (no_opt)" }, hay, bs, seq_json(y), seq_json(x));
                                 } else if !x.is_empty() {
                                     st.sample(|| case_json(&pat, flags, hay, bs, "agree", J::Null, seq_json(x)));
                                 }
@@ -797,7 +805,47 @@ pub fn hays_for(sp: &SweepProfile, thorough: bool, prop: Prop) -> Vec<Hay> {
             alphabet.push(0);
         }
     }
-    enumerate::all_hays(&alphabet, if thorough { sp.hay_thorough } else { sp.hay_quick })
+    let mut v = enumerate::all_hays(&alphabet, if thorough { sp.hay_thorough } else { sp.hay_quick });
+    if prop == Prop::C09 {
+        // iterator state that survives from one match to the next needs a second match that repeats the
+        // work of the first: every haystack of length 2 and 3 doubled (h h)
+        let n = if thorough { sp.hay_thorough } else { sp.hay_quick };
+        let extra: Vec<Hay> = v
+            .iter()
+            .filter(|h| (2..=3).contains(&h.cps.len()) && 2 * h.cps.len() > n)
+            .map(|h| {
+                let mut d = h.cps.clone();
+                d.extend(h.cps.iter());
+                Hay::new(d)
+            })
+            .collect();
+        v.extend(extra);
+    }
+    v
+}
+
+/// Classes whose intervals share UTF-8 lead bytes or straddle lead-byte boundaries (the first-byte bitmap
+/// of the start predicate): one or two items over points around every lead-byte change, plain and negated.
+pub fn lead_byte_classes() -> (Vec<Node>, Vec<u32>) {
+    let pts: Vec<u32> = vec![0x61, 0x7F, 0x80, 0xBF, 0xC0, 0x400, 0x401, 0x43F, 0x440, 0x44F, 0x47F, 0x480, 0x7FF, 0x800, 0xFFF, 0x1000, 0x1FFF, 0x2000, 0xFFFF, 0x10000, 0x3FFFF, 0x40000];
+    let mut items: Vec<crate::ast::ClassItem> = pts.iter().map(|&c| crate::ast::ClassItem::Single(c)).collect();
+    for (i, &a) in pts.iter().enumerate() {
+        for &b in &pts[i + 1..] {
+            items.push(crate::ast::ClassItem::Range(a, b));
+        }
+    }
+    let mut out = Vec::new();
+    for neg in [false, true] {
+        for (i, a) in items.iter().enumerate() {
+            out.push(Node::Class { negated: neg, items: vec![a.clone()] });
+            for b in &items[i + 1..] {
+                out.push(Node::Class { negated: neg, items: vec![a.clone(), b.clone()] });
+            }
+        }
+    }
+    let mut universe = pts.clone();
+    universe.extend([0x62u32, 0x402, 0x410, 0x430, 0x441, 0x451, 0x500, 0x801, 0x1001, 0x3000, 0x10001, 0x20000, 0x40001, 0x10FFFF]);
+    (out, universe)
 }
 
 /// Run one property over a list of profiles. Returns merged statistics.
@@ -808,6 +856,24 @@ pub fn run(run: &mut Run, prop: Prop, profile_names: &[&str]) -> Stats {
     if matches!(prop, Prop::C01 | Prop::C02 | Prop::C03 | Prop::C13) && std::env::var("VERIF_PROFILES").map(|v| v.is_empty() || v.contains("tokens")).unwrap_or(true) {
         let n = if thorough { 5 } else { if prop == Prop::C01 { 4 } else { 3 } };
         let t = drive_tokens(run, prop.id(), n, &|ast, pat, f, hays, known, st| eval_pattern_text(&cfg, ast, pat, f, hays, known, st));
+        total = total.merge(t);
+    }
+    if prop == Prop::C04 && std::env::var("VERIF_PROFILES").map(|v| v.is_empty()).unwrap_or(true) {
+        let (classes, universe) = lead_byte_classes();
+        let hays: Vec<Hay> = universe.iter().map(|&c| Hay::new(vec![c])).chain(universe.iter().map(|&c| Hay::new(vec![0x20, c, 0x61]))).collect();
+        let known = &run.known;
+        let fl = Flags::parse("u");
+        let t = classes
+            .par_iter()
+            .fold(Stats::default, |mut st, c| {
+                eval_pattern(&cfg, c, fl, &hays, known, &mut st);
+                let plus = Node::quant(c.clone(), 1, None, true);
+                eval_pattern(&cfg, &plus, fl, &hays, known, &mut st);
+                st
+            })
+            .reduce(Stats::default, Stats::merge);
+        println!("  C04 lead-byte class family: classes={} cases={} violations={}", classes.len(), t.get("evaluations"), t.total_violations());
+        run.extra.push(("lead_byte_class_family".into(), J::obj().set("classes", J::u(classes.len() as u64)).set("evaluations", J::u(t.get("evaluations")))));
         total = total.merge(t);
     }
     if prop == Prop::C13 {
